@@ -1,13 +1,19 @@
 import Gallia.Lib.Proto
 import Gallia.Model.Replay
+import Gallia.Model.ReplayServe
 open Gallia Gallia.Proto Gallia.Replay
 
 def parseOptHex (s : String) : Option (Option Bytes) := if s == "N" then some none else (parseHex s).map some
 
+def parseInt? (s : String) : Option Int :=
+  match s.toList with
+  | '-' :: r => (String.ofList r).toNat?.map fun n => -(n : Int)
+  | _ => s.toNat?.map fun n => (n : Int)
+
 def parseRow (s : String) : Option Row :=
   match s.splitOn ":" with
   | [id, sel, sess, sec, req, resp] => do
-    let sec ← (if sec == "n" then some none else sec.toNat?.map some)
+    let sec ← (if sec == "n" then some none else (parseInt? sec).map some)
     pure ⟨← id.toNat?, sel == "1", ⟨← sess.toNat?, sec⟩, ← parseHex req, ← parseOptHex resp⟩
   | _ => none
 
@@ -70,11 +76,44 @@ def parseRun (s : String) : Option (Nat × RunInfo) :=
 def parseDbRow (runs : List (Nat × RunInfo)) (s : String) : Option DbRow :=
   match s.splitOn ":" with
   | [id, run, sess, sec, req, resp] => do
-    let sec ← (if sec == "n" then some none else sec.toNat?.map some)
+    let sec ← (if sec == "n" then some none else (parseInt? sec).map some)
     let rid ← run.toNat?
     let ri ← (runs.find? (·.1 == rid)).map (·.2)
-    pure ⟨← id.toNat?, ri, ⟨← sess.toNat?, sec⟩, ← parseHex req, ← parseOptHex resp⟩
+    pure ⟨← id.toNat?, ri, St.toJson ⟨← sess.toNat?, sec⟩, ← parseHex req, ← parseOptHex resp⟩
   | _ => none
+
+def parseObj (s : String) : Option JObj := if s == "+" then some [] else parseList parseKV "," s
+
+/-- `<id>:<runid>:<k=v,...|+>:<req>:<resp|N>` : a row with its JSON state object -/
+def parseJRow (runs : List (Nat × RunInfo)) (s : String) : Option DbRow :=
+  match s.splitOn ":" with
+  | [id, run, st, req, resp] => do
+    let rid ← run.toNat?
+    let ri ← (runs.find? (·.1 == rid)).map (·.2)
+    pure ⟨← id.toNat?, ri, ← parseObj st, ← parseHex req, ← parseOptHex resp⟩
+  | _ => none
+
+/-- `<gap in ms>~<request hex>` -/
+def parseGapReq (s : String) : Option (Nat × Bytes) :=
+  match s.splitOn "~" with
+  | [g, q] => do pure (← g.toNat?, ← parseHex q)
+  | _ => none
+
+def showOut : Out → String
+  | .silence => "N"
+  | .reply b => hexOrDash b
+  | .raised => "EXC"
+
+def showLast : Option Nat → String
+  | none => "-1"
+  | some l => toString l
+
+/-- replies with the server's state and cursor after every request: `<out>~<session>/<level>@<last_response>` -/
+def serveTrace (b : Behavior) (sel : Selector) (xs : JObj) (db : List DbRow) : Srv → List (Nat × Bytes) → List String
+  | _, [] => []
+  | s, (gap, q) :: qs =>
+    let (s', o) := serveStep b Defaults.unused sel xs db s gap q
+    s!"{showOut o}~{showSt s'.st}@{showLast s'.last}" :: serveTrace b sel xs db s' qs
 
 def step (line : String) : String :=
   match line.splitOn "|" with
@@ -89,6 +128,13 @@ def step (line : String) : String :=
             "".intercalate (runs.map fun r => if selects sel r.2 then "1" else "0")
         | _, _ => "bad-op"
       | _, _ => "bad-op"
+    | ["serve", sel, xs, runs, rows], [reqs] =>
+      match parseSel sel, parseList parseRun ";" runs, parseObj xs with
+      | some sel, some runs, some xs =>
+        match parseList (parseJRow runs) ";" rows, parseList parseGapReq "," reqs with
+        | some db, some reqs => ",".intercalate (serveTrace Behavior.db sel xs db {} reqs)
+        | _, _ => "bad-op"
+      | _, _, _ => "bad-op"
     | ["replay", rows], [reqs] =>
       match parseList parseRow ";" rows, parseList parseHex "," reqs with
       | some rows, some reqs => ",".intercalate ((replayAll rows {} reqs).map showOpt)
@@ -96,12 +142,24 @@ def step (line : String) : String :=
     | _, _ => "bad-op"
   | [single] =>
     match words single with
+    | ["kind", b] =>
+      match parseHex b with
+      | some b =>
+        let r := parseRecorded b
+        s!"{showKind (classify b)} {showKind r.kind} {match r with | .typed _ => "typed" | .raw _ => "raw"} {hexOrDash r.pdu} {hexOrDash (reqKey b)}"
+      | none => "bad-op"
+    | ["statematch", srv, row] =>
+      match parseObj srv, parseObj row with
+      | some srv, some row =>
+        s!"{if stateMatch srv row then 1 else 0} {match decodeSt row with | some st => showSt st | none => "none"}"
+      | _, _ => "bad-op"
     | ["agree", ex] =>
       match parseList parseExch ";" ex with
       | some h =>
         let a := if decide (Agree h) then "1" else "0"
         let kinds := h.map fun x => match x.resp with | some b => showKind (classify b) | none => "none"
-        s!"{a} client={",".intercalate ((clientStates St.default h).map showSt)} server={",".intercalate ((serverStates St.default h).map showSt)} kinds={",".intercalate kinds}"
+        let fin := h.foldl (fun st x => srvNext st x.resp) St.default
+        s!"{a} final={showSt fin} client={",".intercalate ((clientStates St.default h).map showSt)} server={",".intercalate ((serverStates St.default h).map showSt)} kinds={",".intercalate kinds}"
       | none => "bad-op"
     | _ => "bad-op"
   | _ => "bad-op"
